@@ -18,6 +18,13 @@ func rulesC01(c *Ctx) {
 	c01Self(c)
 	c01Outermost(c)
 	c01Wrapper(c)
+	// "each policy handles only what the policy inside it returned": what a policy handles is decided by the shared
+	// classification
+	c12IsFailure(c)
+	c12Registrars(c)
+	c12AnyOf(c)
+	c12Shared(c)
+	c12Unwrap(c)
 	// "each policy handles only what the policy inside it returned … the function is invoked only when every
 	// enclosing policy admits the attempt": the wrapper summary of every policy executor
 	c.Rule("retry-wrapper")
@@ -62,7 +69,7 @@ func c01Compose(c *Ctx) {
 		c.Unresolved("failsafe.(*executor).execute", "function not found")
 		return
 	}
-	ev := NewEvaluator(c.P, EvalConfig{MaxVisits: visits(4)})
+	ev := NewEvaluator(c.P, EvalConfig{MaxVisits: visits(4), KeepHandedClosures: true})
 	paths := ev.Run(fn)
 	if ev.Err != nil {
 		c.Undecided(c.fn(fn), c.P.FuncPos(fn), "evaluation failed: "+ev.Err.Error(), "")
